@@ -1,6 +1,6 @@
 (* Extraction of the executable models (ExtrOcamlBasic only; Z, nat, positive stay Coq datatypes). *)
 From Coq Require Import ZArith List Bool.
-From MV Require Import Prelude.Py Gen.TieredTime Gen.UpdateMin Time.Spec Static.Groups Static.Connect Static.Build Static.Cycle Static.CycleP Static.CycleC Static.Attrs Sched.Timing Sched.Plane Sched.Link Sched.Certify Sched.Quiet Sched.Bound Sched.PullRun Sched.EventRun Ext.Adapters Ext.Util Ext.RT.
+From MV Require Import Prelude.Py Gen.TieredTime Gen.UpdateMin Time.Spec Static.Groups Static.Connect Static.Build Static.Cycle Static.CycleP Static.CycleC Static.Attrs Sched.Timing Sched.Plane Sched.Link Sched.Certify Sched.Quiet Sched.Bound Sched.PullRun Sched.EventRun Ext.Adapters Ext.Util Ext.RT Gen.CycleFns Static.GenCycle Gen.AncFns Static.GenAnc.
 Require Extraction.
 Require Import ExtrOcamlBasic.
 Extraction Language OCaml.
@@ -19,4 +19,6 @@ Extraction "../build/model.ml"
   Attrs.parse_attrs Attrs.parse_set_triple isub iand ior seqb mem mkDesc
   start deliver meta_type mkStart
   connect_evenly connect_randomly_uneven connected_set connect_many_to_one
-  may_begin rt_check set_event rt_progress.
+  may_begin rt_check set_event rt_progress
+  (* regenerated closures, for the cross-check of the normal-form hypothesis of their ties *)
+  cycle_check_gen ancestors_gen.
